@@ -73,10 +73,14 @@ Proof.
 Qed.
 
 (* ---- take / release and the invariants *)
+Lemma take_other_fields_at : forall o st t s1, take_at o st = Ok (t, s1) ->
+  l_mused s1 = l_mused st /\ l_q s1 = l_q st /\ l_next s1 = l_next st /\ l_ret s1 = l_ret st /\
+  l_rf s1 = l_rf st /\ l_lv s1 = l_lv st /\ l_len s1 = l_len st /\ l_decl s1 = l_decl st.
+Proof. intros o st t s1 H. apply take_at_facts in H. intuition. Qed.
 Lemma take_other_fields : forall st t s1, take st = Ok (t, s1) ->
   l_mused s1 = l_mused st /\ l_q s1 = l_q st /\ l_next s1 = l_next st /\ l_ret s1 = l_ret st /\
   l_rf s1 = l_rf st /\ l_lv s1 = l_lv st /\ l_len s1 = l_len st /\ l_decl s1 = l_decl st.
-Proof. intros st t s1 H. apply take_facts in H. intuition. Qed.
+Proof. exact (take_other_fields_at None). Qed.
 
 Lemma act_true_after_set : forall l r r', nth_error l r' = Some true -> nth_error (set_nth l r true) r' = Some true.
 Proof.
@@ -85,14 +89,16 @@ Proof.
   - rewrite nth_set_nth_other by exact Hn. exact H.
 Qed.
 
-Lemma Inv_take : forall st t s1, take st = Ok (t, s1) -> Inv st -> Inv s1.
+Lemma Inv_take_at : forall o st t s1, take_at o st = Ok (t, s1) -> Inv st -> Inv s1.
 Proof.
-  intros st t s1 H [A B C C' D E F G LA LM]. destruct (take_other_fields _ _ _ H) as (E2 & E3 & E4 & E5 & E6 & E7 & E8 & _).
-  apply take_facts in H. destruct H as (Hf & Ha & _).
+  intros o st t s1 H [A B C C' D E F G LA LM]. destruct (take_other_fields_at _ _ _ _ H) as (E2 & E3 & E4 & E5 & E6 & E7 & E8 & _).
+  apply take_at_facts in H. destruct H as (Hf & Ha & _).
   constructor; rewrite ?E2, ?E3, ?E4, ?E5, ?E6, ?E7, ?E8; try assumption.
   - intros v r Hv. rewrite Ha. apply act_true_after_set. eauto.
   - rewrite Ha, set_nth_length. exact LA.
 Qed.
+Lemma Inv_take : forall st t s1, take st = Ok (t, s1) -> Inv st -> Inv s1.
+Proof. exact (Inv_take_at None). Qed.
 
 Lemma Inv_release_all_same_act : forall st st', Inv st ->
   l_act st' = l_act st -> l_mused st' = l_mused st -> l_q st' = l_q st -> l_next st' = l_next st ->
@@ -134,8 +140,10 @@ Lemma sba_refl : forall st, sba st st.
 Proof. intro. unfold sba. repeat split. Qed.
 Lemma sba_trans : forall a b c, sba a b -> sba b c -> sba a c.
 Proof. unfold sba. intros a b c H1 H2. intuition congruence. Qed.
+Lemma sba_take_at : forall o st t s1, take_at o st = Ok (t, s1) -> sba st s1.
+Proof. intros. eapply take_other_fields_at; eauto. Qed.
 Lemma sba_take : forall st t s1, take st = Ok (t, s1) -> sba st s1.
-Proof. intros. eapply take_other_fields; eauto. Qed.
+Proof. exact (sba_take_at None). Qed.
 Lemma sba_release : forall t st, sba st (release t st).
 Proof. intros. apply release_fields. Qed.
 Lemma sba_release_all : forall ts st, sba st (release_all ts st).
@@ -244,25 +252,27 @@ Definition facts_block (b : block) : Prop :=
 
 Ltac inv_ok H := inversion H; subst; clear H.
 
-Lemma Inv_bind_loop : forall st r s1 v, take st = Ok (r, s1) -> Inv st -> Inv (bind_lvr v r s1).
+Lemma Inv_bind_loop_at : forall o st r s1 v, take_at o st = Ok (r, s1) -> Inv st -> Inv (bind_lvr v r s1).
 Proof.
-  intros st r s1 v Ht I. assert (I1 := Inv_take _ _ _ Ht I). destruct I1 as [A B C C' D E F G LA LM].
+  intros o st r s1 v Ht I. assert (I1 := Inv_take_at _ _ _ _ Ht I). destruct I1 as [A B C C' D E F G LA LM].
   unfold bind_lvr. constructor; cbn; try assumption.
   intros v' r' H. destruct (Nat.eqb v' v) eqn:Ev.
-  - inversion H; subst. apply take_facts in Ht. destruct Ht as (Hf & Ha & _). rewrite Ha.
+  - inversion H; subst. apply take_at_facts in Ht. destruct Ht as (Hf & Ha & _). rewrite Ha.
     apply nth_set_nth_same. apply nth_error_Some. congruence.
   - apply (A _ _ H).
 Qed.
+Lemma Inv_bind_loop : forall st r s1 v, take st = Ok (r, s1) -> Inv st -> Inv (bind_lvr v r s1).
+Proof. exact (Inv_bind_loop_at None). Qed.
 
 (* closing a loop: register released, loop variables of the statement's entry restored *)
-Lemma close_loop : forall st r s1 v s2,
-  take st = Ok (r, s1) -> Inv st -> Inv s2 -> Ext (bind_lvr v r s1) s2 ->
+Lemma close_loop_at : forall o st r s1 v s2,
+  take_at o st = Ok (r, s1) -> Inv st -> Inv s2 -> Ext (bind_lvr v r s1) s2 ->
   Inv (release r (with_lvs s2 (l_lv st))) /\ Ext st (release r (with_lvs s2 (l_lv st))).
 Proof.
-  intros st r s1 v s2 Ht I I2 X.
-  destruct (take_other_fields _ _ _ Ht) as (E2 & E3 & E4 & E5 & E6 & E7 & E8 & _).
+  intros o st r s1 v s2 Ht I I2 X.
+  destruct (take_other_fields_at _ _ _ _ Ht) as (E2 & E3 & E4 & E5 & E6 & E7 & E8 & _).
   assert (Ha : l_act (release r (with_lvs s2 (l_lv st))) = l_act st).
-  { cbn. rewrite (x_act _ _ X). cbn. apply take_facts in Ht. destruct Ht as (Hf & Ha & _).
+  { cbn. rewrite (x_act _ _ X). cbn. apply take_at_facts in Ht. destruct Ht as (Hf & Ha & _).
     rewrite Ha. apply set_nth_undo. exact Hf. }
   destruct I as [A B C C' D E F G LA LM]. destruct I2 as [A2 B2 C2 C2' D2 E2' F2 G2 LA2 LM2]. destruct X as [X1 X2 X3 X4 X5 X6 X7].
   cbn in X1, X2, X3, X4, X5, X6, X7. split.
@@ -278,6 +288,10 @@ Proof.
     + cbn. rewrite <- E2. exact X6.
     + cbn. lia.
 Qed.
+Lemma close_loop : forall st r s1 v s2,
+  take st = Ok (r, s1) -> Inv st -> Inv s2 -> Ext (bind_lvr v r s1) s2 ->
+  Inv (release r (with_lvs s2 (l_lv st))) /\ Ext st (release r (with_lvs s2 (l_lv st))).
+Proof. exact (close_loop_at None). Qed.
 
 Lemma low_cval_sba : forall x st l p ts st1, low_cval x st = Ok (l, p, ts, st1) -> sba st st1.
 Proof. intros. eapply sba_held. eapply low_cval_held; eauto. Qed.
@@ -387,12 +401,12 @@ Proof.
        [eapply sba_trans; [eapply sba_held; eauto|eapply sba_trans; [eapply sba_held; eauto|apply sba_release_all]]
        |exact (proj1 (held2_release _ _ _ _ _ Hhx Hhy))]).
   - (* SLoop *) intros cb v oreg start stop step body IH Hp He st code st' H I.
-    destruct oreg; [discriminate|]. cbn [plain noepr] in Hp, He. cbn [lower_stmt] in H.
+    cbn [plain noepr] in Hp, He. cbn [lower_stmt] in H.
     destruct (alook v (l_lv st)); [discriminate|].
-    destruct (take st) as [[r s1]|] eqn:Ht; cbn [bind] in H; [|discriminate].
+    destruct (take_at oreg st) as [[r s1]|] eqn:Ht; cbn [bind] in H; [|discriminate].
     destruct (lower_block true body (bind_lvr v r s1)) as [[cbody s2]|] eqn:Hb; cbn [bind] in H; [|discriminate].
-    destruct (IH Hp He _ _ _ Hb (Inv_bind_loop _ _ _ v Ht I)) as [I2 X2].
-    destruct (close_loop _ _ _ _ _ Ht I I2 X2) as [I3 X3].
+    destruct (IH Hp He _ _ _ Hb (Inv_bind_loop_at _ _ _ _ v Ht I)) as [I2 X2].
+    destruct (close_loop_at _ _ _ _ _ _ Ht I I2 X2) as [I3 X3].
     destruct (is_nil cbody); inv_ok H; split; assumption.
   - (* SForeach *) intros enum v a body IH Hp He st code st' H I.
     cbn [plain noepr] in Hp, He. cbn [lower_stmt] in H.
@@ -422,8 +436,28 @@ Proof.
       eapply Ext_trans; [exact X2|]. eapply Ext_trans; [eapply Ext_sba; eauto|exact X4].
   - (* SEpr *) intros k body IH Hp He. discriminate.
   - (* SFlush *) intros _ _ st c st' H. discriminate.
-  - intros a b n o m Hw. discriminate.
-  - intros q ip a b n Hw. discriminate.
+  - (* SFutAddX *) intros a b n o m Hp _ st c st' H I.
+    assert (Ha := active_restored _ _ _ _ _ Hp H). cbn [lower_stmt] in H.
+    destruct (take st) as [[t s1]|] eqn:Ht; cbn [bind] in H; [|discriminate].
+    destruct (take s1) as [[ti s1i]|] eqn:Hti; cbn [bind] in H; [|discriminate].
+    destruct (low_src o (release ti s1i)) as [[[[lo y] ts] s2]|] eqn:Hs; cbn [bind] in H; [|discriminate].
+    match type of H with Ok (_, ?X) = _ => assert (Es : st' = X) by (inversion H; reflexivity) end.
+    assert (S : sba st st').
+    { rewrite Es. eapply sba_trans; [eapply sba_take; eauto|].
+      eapply sba_trans; [eapply sba_take; eauto|].
+      eapply sba_trans; [apply sba_release|].
+      eapply sba_trans; [eapply low_src_sba; eauto|].
+      eapply sba_trans; [apply sba_release|apply sba_release_all]. }
+    split; [eapply Inv_sba; eauto|eapply Ext_sba; eauto].
+  - (* SMeasFutX *) intros q ip a b n Hp _ st c st' H I. cbn [lower_stmt] in H.
+    destruct (low_meas q ip false st) as [[[m c0] s1]|e] eqn:Em; cbn [bind] in H; [|discriminate].
+    destruct (take s1) as [[ti s1i]|] eqn:Hti; cbn [bind] in H; [|discriminate]. inv_ok H.
+    destruct (low_meas_false_inv _ _ _ _ _ _ Em I) as [I1 X1].
+    assert (S : sba s1 (release ti s1i)) by (eapply sba_trans; [eapply sba_take; eauto|apply sba_release]).
+    assert (Ea : l_act (release ti s1i) = l_act s1).
+    { destruct (take_facts _ _ _ Hti) as (Hf & Ha & _). unfold release. cbn [l_act with_act]. rewrite Ha.
+      apply set_nth_undo. exact Hf. }
+    split; [eapply Inv_sba; eauto|eapply Ext_trans; [exact X1|eapply Ext_sba; eauto]].
   - intros _ _ st c st' H I. inv_ok H. split; [assumption|apply Ext_refl].
   - intros s IHs b IHb Hp He st c st' H I. cbn [bplain bnoepr] in Hp, He.
     apply andb_prop in Hp. destruct Hp as [Hp1 Hp2]. apply andb_prop in He. destruct He as [He1 He2].
